@@ -142,6 +142,10 @@ def option_box(D, N, M=3, symmetric_only=False, unit_stride=False):
     for padding in ("TORUS", "SAME", "VALID", None, 0, 1, 2, sym) + (() if symmetric_only else (asym,)):
         for rd in (1, 2, 3):
             out.append((padding, 1, rd, None, mixed))
+    # a wrap wider than the image itself (the halo spans more than one period)
+    wide = max(N) + 1
+    out.append(("TORUS", 1, wide, None, (True,) * D))
+    out.append((None, 1, wide, None, mixed))
     out.append(("TORUS", 1, aniso(1, 2), None, (True,) * D))
     out.append(("SAME", 1, aniso(2, 1), None, none))
     out.append((None, 1, 1, None, none))
